@@ -205,8 +205,8 @@ def run(ctx):
     results = core.parallel_map(_mc_job, jobs, chunksize=32)
     # random Voronoi tissues
     vjobs = []
-    cap = ctx.pick(700, 6000)
-    for i in range(ctx.pick(100, 3000)):
+    cap = ctx.pick(700, 3000)
+    for i in range(ctx.pick(100, 1200)):
         case += 1
         s = ctx.seed * 104729 + i
         vjobs.append((case, s, cap))
@@ -218,9 +218,12 @@ def run(ctx):
     fjobs = []
     dumps = DUMPS_QUICK if ctx.quick else all_dumps()
     for p in dumps:
-        combos = [(rng.randint(1, 12), rng.random() < 0.5) for _ in range(2)] if ctx.quick else \
-            [(ne, rse) for ne in ((1, 2, 3, 4, 6, 9, 12) if "in_silico" in p or "12_12" in p else range(1, 13))
-             for rse in (False, True)]
+        if ctx.quick:
+            combos = [(rng.randint(1, 12), rng.random() < 0.5) for _ in range(2)]
+        elif "furrow" in p:
+            combos = [(ne, ne % 2 == 0) for ne in range(1, 13)]
+        else:
+            combos = [(rng.randint(1, 3), True), (rng.randint(4, 7), False), (rng.randint(8, 12), True), (rng.randint(1, 12), False)]
         for ne, rse in combos:
             case += 1
             fjobs.append((case, p, ne, rse))
@@ -230,7 +233,8 @@ def run(ctx):
     sjobs = []
     for p in (IMAGES[:1] if ctx.quick else IMAGES):
         for ne, rse, red in ([(6, True, False)] if ctx.quick else
-                             [(ne, rse, red) for ne in (1, 2, 4, 6, 12) for rse in (False, True) for red in (False, True)]):
+                             [(1, True, False), (2, False, True), (4, True, True), (6, True, False), (6, False, True),
+                              (12, True, False)]):
             case += 1
             sjobs.append((case, p, ne, rse, red))
             payloads[case] = {"kind": "skeleton", "path": p, "ne": ne, "rse": rse, "reduce": red}
